@@ -22,7 +22,9 @@ VARIABLES cid, l, ok, why,
 tvars == <<vars, cid, l, ok, why, wok>>
 
 ToSet(s) == {s[i] : i \in 1..Len(s)}
-Obs(d) == [n \in Names |-> CASE n = "n" -> ToSet(d.n) [] n = "n2" -> ToSet(d.n2) [] n = "o" -> ToSet(d.o)]
+\* the decisions are observed on a list of probe roles (e.roles); allowing every one of them is written {"*"}
+Star(S, all) == IF all # {} /\ S = all THEN {"*"} ELSE S
+ObsA(d, all) == [n \in Names |-> Star(CASE n = "n" -> ToSet(d.n) [] n = "n2" -> ToSet(d.n2) [] n = "o" -> ToSet(d.o), all)]
 
 TInit == Init /\ cid \in 1..Len(Traces) /\ l = 1 /\ ok = TRUE /\ why = "-" /\ wok = TRUE
 
@@ -32,6 +34,7 @@ Step(e) ==
     [] e.op = "empty"   -> Empty(e.f) /\ ok' = (ok /\ clock' = e.t) /\ why' = why
     [] e.op = "touch"   -> Touch(e.f) /\ ok' = (ok /\ clock' = e.t) /\ why' = why
     [] e.op = "delete"  -> Delete(e.f) /\ ok' = (ok /\ clock' = e.t) /\ why' = why
+    [] e.op = "replace" -> Replace(e.f, e.kind, e.older = 1) /\ ok' = (ok /\ clock' = e.t) /\ why' = why
     [] e.op = "ignored" -> TouchIgnored(e.f) /\ ok' = (ok /\ clock' = e.t) /\ why' = why
     [] e.op = "register" -> RegisterNext /\ ok' = ok /\ why' = why
     [] e.op = "setopt"  -> SetOption(e.v = 1) /\ ok' = ok /\ why' = why
@@ -39,9 +42,9 @@ Step(e) ==
          /\ Load(e.force = 1)
          /\ LET specDec == Decisions(st'.rules)
                 layered == Decisions(FreshPolicyN(fs, dirs, enfnew, nreg))
-                c10 == Obs(e.dec) = specDec            \* long-lived enforcer follows the specification
-                c09 == Obs(e.fresh) = layered          \* a fresh enforcer computes the layering sentence
-                eq  == DefaultMode => Obs(e.dec) = Obs(e.fresh)       \* C10 itself (default overwrite mode)
+                c10 == ObsA(e.dec, ToSet(e.roles)) = specDec            \* long-lived enforcer follows the specification
+                c09 == ObsA(e.fresh, ToSet(e.roles)) = layered          \* a fresh enforcer computes the layering sentence
+                eq  == DefaultMode => ObsA(e.dec, ToSet(e.roles)) = ObsA(e.fresh, ToSet(e.roles))       \* C10 itself (default overwrite mode)
                 \* C12: a load directly after a load prints the same rule set; the
                 \* caller-owned default objects are never altered
                 idem == (synced /\ (Overwrite \/ ~removed \/ e.force = 0)) => e.printsame = 1
